@@ -56,6 +56,13 @@ fn run_job(job: Job, miri: bool) -> (Job, Outcome, usize) {
         };
         return (job, out, 0);
     }
+    // helper threads that a runtime starts lazily at the first thread creation (ThreadSanitizer's
+    // background thread) must exist before the first baseline is taken
+    static WARM: std::sync::Once = std::sync::Once::new();
+    WARM.call_once(|| {
+        let _ = std::thread::spawn(|| {}).join();
+        std::thread::sleep(Duration::from_millis(50));
+    });
     let baseline = thread_count();
     let (tx, rx) = mpsc::channel();
     let handle = std::thread::Builder::new()
